@@ -303,11 +303,16 @@ type HSpec struct {
 	D    []int64 `json:"d,omitempty"`
 	Sub  int     `json:"sub"`  // which scope under the root creates it
 	Samp []pbt.F `json:"samp"` // samples (durations: truncated)
+	// UseDefault: created with a nil bucket argument; the bounds are then those of the root's
+	// DefaultBuckets option (CacheCase.Default), of the kind they were given in
+	UseDefault bool `json:"useDefault,omitempty"`
 }
 
 type CacheCase struct {
 	Cached bool    `json:"cached"`
 	Hists  []HSpec `json:"hists"`
+	// Default (optional, non-empty): the root's ScopeOptions.DefaultBuckets
+	Default *HSpec `json:"default,omitempty"`
 	// Layout: where the bucket slices handed to Histogram() live. 0: each in its own exactly-sized
 	// slice; 1: consecutive pieces of one array per kind, each with capacity up to the array's end
 	// (fine[:5] next to the rest of fine: writing one element past a slice's length lands in the
@@ -478,6 +483,20 @@ func genCache(t *rapid.T) CacheCase {
 			}
 		}
 		c.Hists = append(c.Hists, hs)
+	}
+	if rapid.IntRange(0, 3).Draw(t, "default?") == 0 {
+		// the root gets one of the generated sets as its default; some histograms are created with nil
+		src := c.Hists[rapid.IntRange(0, len(c.Hists)-1).Draw(t, "defaultOf")]
+		if len(src.V)+len(src.D) > 0 {
+			c.Default = &HSpec{Dur: src.Dur, V: src.V, D: src.D}
+			for i := range c.Hists {
+				if rapid.IntRange(0, 2).Draw(t, "useDefault") == 0 {
+					c.Hists[i].UseDefault = true
+					c.Hists[i].Dur, c.Hists[i].V, c.Hists[i].D = src.Dur, src.V, src.D
+					c.Hists[i].Samp = src.Samp
+				}
+			}
+		}
 	}
 	return c
 }
@@ -661,14 +680,18 @@ func runCache(c CacheCase) (pbt.Outcome, error) {
 	var out pbt.Outcome
 	var log *rec.Log
 	var root tally.Scope
+	var def tally.Buckets
+	if c.Default != nil {
+		def = c.Default.buckets()
+	}
 	if c.Cached {
 		r := rec.NewCached()
 		log = r.L
-		root, _ = tally.NewRootScope(tally.ScopeOptions{CachedReporter: r, OmitCardinalityMetrics: true}, 0)
+		root, _ = tally.NewRootScope(tally.ScopeOptions{CachedReporter: r, OmitCardinalityMetrics: true, DefaultBuckets: def}, 0)
 	} else {
 		r := rec.NewStats()
 		log = r.L
-		root, _ = tally.NewRootScope(tally.ScopeOptions{Reporter: r, OmitCardinalityMetrics: true}, 0)
+		root, _ = tally.NewRootScope(tally.ScopeOptions{Reporter: r, OmitCardinalityMetrics: true, DefaultBuckets: def}, 0)
 	}
 	scopes := []tally.Scope{root, root.SubScope("s1"), root.Tagged(map[string]string{"t": "1"})}
 	prefixes := []string{"", "s1.", ""}
@@ -701,7 +724,11 @@ func runCache(c CacheCase) (pbt.Outcome, error) {
 		}
 		n := fmt.Sprintf("h%d", i)
 		names[i] = prefixes[h.Sub] + n
-		hist := scopes[h.Sub].Histogram(n, spec)
+		arg := spec
+		if h.UseDefault && c.Default != nil {
+			arg = nil // the root's default buckets (the HSpec carries what they are)
+		}
+		hist := scopes[h.Sub].Histogram(n, arg)
 		if fmt.Sprint(before.AsDurations()) != fmt.Sprint(spec.AsDurations()) || fmt.Sprint(before.AsValues()) != fmt.Sprint(spec.AsValues()) {
 			errs.Addf("Histogram() modified the caller's slice: %v -> %v", before, spec)
 		}
@@ -726,6 +753,9 @@ func runCache(c CacheCase) (pbt.Outcome, error) {
 	}
 	if c.Layout != 0 {
 		out.Classes = append(out.Classes, fmt.Sprintf("layout=%d", c.Layout))
+	}
+	if c.Default != nil {
+		out.Classes = append(out.Classes, "root-default-buckets")
 	}
 	for _, h := range c.Hists {
 		if identity(h) == 0 && len(h.V)+len(h.D) > 0 {
